@@ -28,7 +28,8 @@ EXPLANATION = (
     'sendStopAck(false) on every iteration that stays in the loop, doSearch passes sendStopSearch -> sendStopAck(false) -> poll '
     'until hasStopAck, the quit path polls until hasQuitAck; (6) after the inner wait loop of doSearch the engine thread either '
     're-notifies itself or handles pending options before it can sleep again.'
-    ' (7) completion-flag typestate of optionsSetFinished; waits written with the predicate overload are modelled like predicate loops.')
+    ' (7) completion-flag typestate of optionsSetFinished; waits written with the predicate overload are modelled like predicate loops.'
+    ' Added later; (10) every function that waits for has<X>Ack() polls with a handler whose <x>Ack callback calls send<X>Ack.')
 UNDECIDED = ('absence of deadlock or lost wake-up over all interleavings of the composed protocol (a liveness property: model '
              'checking territory, a different technique family); fairness of the OS scheduler.')
 ASSUMPTIONS = ['std::condition_variable / std::mutex semantics of the C++ standard',
@@ -51,6 +52,7 @@ def run(fb, rep, tier):
     completion_flag(fb, rep, 'C10.7')
     c8_publish_then_notify(fb, rep)
     c9_ack_forwarding(fb, rep)
+    c10_ack_counting(fb, rep)
 
 
 # ----------------------------------------------------------------------------- .1
@@ -899,3 +901,34 @@ def c9_ack_forwarding(fb, rep):
             rep.ob(clause, 'K10 guard completeness', 'send%sAck forwards to the parent only under a test of everything has%sAck() depends on' % (x, x),
                    need <= got and bool(need), R.site(snd, e), 'completion predicate reads %s; forwarding guard reads %s' % (sorted(need), sorted(got)), snd.sname)
     rep.floor(clause, 'upward acknowledgement sends', n, 2)
+
+
+# ----------------------------------------------------------------------------- .10
+
+def c10_ack_counting(fb, rep, clause='C10.10'):
+    """K10 agreement between a wait loop and its handler.  A thread that waits `until comm->has<X>Ack()` drains its queue
+    with comm->poll(handler); the acknowledgements of its children arrive as <X>_ACK commands and are only *counted* when
+    the handler's <x>Ack() callback calls send<X>Ack (which decrements the counter has<X>Ack() tests).  A callback that
+    merely forwards (forward<X>Ack: meant for cluster pass-through nodes) leaves the counter alone: the loop never ends
+    - after `quit` the process never exits, after a search the next command blocks."""
+    n = 0
+    for f in sorted((f for f in fb.funcs.values() if f.has_cfg and R.in_engine(f)), key=lambda x: x.key):
+        calls = [e for _, _, e in f.events() if e.get('k') == 'call']
+        polls = [e for e in calls if cname(e) == 'Communicator::poll' and e.get('args')]
+        if not polls:
+            continue
+        for x in ('Stop', 'Quit'):
+            if not any(cname(e) == 'Communicator::has%sAck' % x for e in calls):
+                continue
+            # the loop exit really tests it
+            tested = any(any(n_.get('k') == 'call' and cname(n_) == 'Communicator::has%sAck' % x for n_ in walk((blk.get('term') or {}).get('cond') or {})) for blk in f.blocks.values())
+            if not tested:
+                continue
+            for pe in polls:
+                hcls = (pe['args'][0] or {}).get('rc') or (pe['args'][0] or {}).get('t')
+                cb = fb.find1('%s::%sAck' % (hcls, x.lower()))
+                n += 1
+                ok = cb is not None and cb.has_cfg and any(e.get('k') == 'call' and cname(e) == 'Communicator::send%sAck' % x for _, _, e in cb.events())
+                rep.ob(clause, 'K10 loop/handler agreement', '%s waits for has%sAck(): the handler it polls with counts the acknowledgements (calls send%sAck)' % (f.sname, x, x), ok,
+                       R.site(f, pe), 'handler %s::%sAck calls %s' % (hcls, x.lower(), [cname(e) for _, _, e in cb.events() if e.get('k') == 'call'] if cb is not None and cb.has_cfg else 'nothing (not overridden)'), f.sname)
+    rep.floor(clause, 'acknowledgement wait loops', n, 3)
